@@ -14,7 +14,7 @@ PROPERTY = "C01"
 FUNCTIONS = ["Rvectors.__init__/set_Rvec/set_fft_q_to_R/q_to_R/get_remapper_XX_from_grid_to_list_R/remap_XX_from_grid_to_list_R/remap_XX_R/reverseR/conj_XX_R/iR/set_fft_R_to_k/R_to_k",
              "WignerSeitz.__init__/__call__", "fourier.fft.execute_fft/fft_np/fft_W, FFT_R_to_k (k-list mode)"]
 BOUNDS = dict(quick=dict(lattices="cubic, tetragonal, hexagonal, fcc, bcc, monoclinic, 1 seeded rational triclinic", meshes="1x1x2 2x1x1 2x2x1 3x1x1 2x2x2 (<= 8 points) in 3 orders (natural, reversed, seeded shuffle)",
-                         centres="nb=1..2: origin, generic, on a Wigner-Seitz face (1/2,0,0), outside the home cell, coinciding; plus centres-free (no shifts)",
+                         centres="nb=1..2: origin, generic, on a Wigner-Seitz face (1/2,0,0), outside the home cell, coinciding; within and just outside the tolerance of a face / edge / corner of the supercell Wigner-Seitz cell; plus centres-free (no shifts)",
                          ws_tolerance="1e-3, 1e-5, -1e-5, 0.3", data="symbolic complex X_q Hermitian in the band indices, scalar and vector valued, |X|<=1", fftlib="numpy(stub), fftw(stub)"),
               thorough=dict(lattices="as quick + 3 seeded triclinic", meshes="as quick + 4x1x1, 3x2x1, 2x2x3 (<= 12 points), 5 orders", centres="nb=1..3, as quick + seeded random",
                             ws_tolerance="as quick", data="as quick + rank-2 trailing axes", fftlib="both"))
@@ -135,6 +135,8 @@ def setup():
 def case_roundtrip(rec, latt, mp, cen, tol, order, nb, trailing, fftlib, seed):
     setup()
     lattice = LATTICES[latt] if latt in LATTICES else triclinic(int(latt[3:]))
+    if cen not in CENTRES:
+        cases("thorough", seed)          # near-boundary centre sets are registered by cases()
     centres = CENTRES[cen]
     if centres is not None:
         centres = np.array(centres, dtype=float)[:nb] if nb <= len(centres) else np.array(centres + [[0.8, 0.05, 0.45]], dtype=float)[:nb]
@@ -235,6 +237,21 @@ def cases(tier, seed):
         for order in ("shuffle0", "shuffle1"):
             out.append(Case(f"{latt} mp={mp} centres=generic2 tol=1e-05 order={order} (negative images) numpy", case_roundtrip,
                             dict(latt=latt, mp=mp, cen="generic2", tol=1e-5, order=order, nb=2, trailing=(), fftlib="numpy", seed=seed), timeout=600))
+    # centres within / just outside the Wigner-Seitz tolerance of a face, an edge and a corner of the supercell Wigner-Seitz cell
+    near = dict(face_in=([[0, 0, 0], [0.5 + 1e-6, 0.1, 0.2]], 1e-5), face_out=([[0, 0, 0], [0.5 + 3e-5, 0.1, 0.2]], 1e-5), face_in3=([[0, 0, 0], [0.5 - 4e-4, 0.25, 0]], 1e-3),
+                edge_in=([[0.1, 0.1, 0], [0.6 + 1e-6, 0.6 - 1e-6, 0.3]], 1e-5), corner_in=([[0, 0, 0], [0.5 + 1e-6, 0.5 - 1e-6, 0.5 + 2e-6]], 1e-5),
+                corner_neg=([[0, 0, 0], [0.5 + 1e-6, 0.5 - 1e-6, 0.5 + 2e-6]], -1e-5))
+    for nm, (cen_, tol_) in near.items():
+        CENTRES[nm] = cen_
+        for latt, mp in (("cubic", (2, 1, 1)), ("cubic", (2, 2, 2)), ("tetragonal", (2, 2, 1)), ("monoclinic", (2, 1, 2))) + (() if q else (("fcc", (2, 2, 2)), ("hexagonal", (3, 3, 1)))):
+            if nm.startswith("corner") and mp != (2, 2, 2):
+                continue
+            # mp=2 along an axis puts the supercell Wigner-Seitz face at reduced coordinate 1 = 2 * 0.5: use centres scaled accordingly as well
+            for scale in (1, 2):
+                key_ = f"{nm}_x{scale}"
+                CENTRES[key_] = [list(np.array(c) * scale) for c in cen_]
+                out.append(Case(f"{latt} mp={mp} centres={key_} tol={tol_} order=natural near-boundary numpy", case_roundtrip,
+                                dict(latt=latt, mp=mp, cen=key_, tol=tol_, order="natural", nb=2, trailing=(), fftlib="numpy", seed=seed), timeout=600))
     for latt in ("cubic", "hexagonal", "fcc"):
         for mp in ((2, 2, 1), (3, 1, 1)) if q else ((2, 2, 1), (3, 1, 1), (2, 2, 2)):
             out.append(Case(f"remap {latt} mp={mp} face2", case_remap, dict(latt=latt, mp=mp, cen="face2", nb=2, seed=seed), timeout=600))
@@ -265,6 +282,8 @@ def replay(rec):
         return bool(e > 1e-8), f"remap: max change at mesh points {e:.2e}"
     # hermitise
     X = 0.5 * (X + np.conjugate(np.swapaxes(X, 1, 2)))
+    if w["cen"] not in CENTRES:
+        cases("thorough", w["seed"])
     centres = CENTRES[w["cen"]]
     if centres is not None:
         centres = np.array(centres, dtype=float)[:nb] if nb <= len(centres) else np.array(centres + [[0.8, 0.05, 0.45]], dtype=float)[:nb]
